@@ -266,6 +266,11 @@ class TunnelCommunity(Community):
         if isinstance(crypto_endpoint, PythonCryptoEndpoint):
             self.endpoint.remove_listener(crypto_endpoint)
 
+        # Shutting down the task manager cancels the removal tasks started above while they still wait for
+        # remove_tunnel_delay: close the exit sockets they did not get to.
+        for exit_socket in list(self.exit_sockets.values()):
+            await exit_socket.close()
+
     def get_serializer(self) -> Serializer:
         """
         Extend our serializer with the ability to (un)pack exit node flags.
